@@ -1,4 +1,6 @@
 import PqlModel.Props.C10
+import PqlModel.Props.C08Full
 #print axioms Pql.C10.C10_union_lists_every_field
 #print axioms Pql.C10.C10_model_matches_span_table
 #print axioms Pql.C10.C10_unions_contains
+#print axioms Pql.C08.C08_accounted_parse
